@@ -340,6 +340,10 @@ Definition crash_points (c : cfg) (w : world) (o : op) : list world :=
    demand": the next open() re-creates the directory (0700) and a new file (configured mode). *)
 Inductive xop := XOp (o : op) | XRmDir (t : Z) | XRmActive (t : Z)
   | XAppend (pos : N) (x : N) (t : Z)    (* somebody appends the bytes of chunk x to the pos-th (0 = oldest) file of the sink *)
+  | XChmod (pos : N) (m : N) (t : Z)      (* somebody chmods the pos-th file of the sink and leaves it so: an explicit Mode is put
+                                             back by the next open() of that name, an unset Mode leaves the file as it is *)
+  | XNewSink (t : Z)                      (* the program drops the sink object and makes a new one with the same configuration on the same
+                                             path: no descriptor, BytesWritten 0, LastCreated zero; its first open finds the files there *)
   | XUnformatted (t : Z).                 (* Process with an event that does not carry the sink's format: "event was not marshaled",
                                              returned before the lock is taken — nothing happens *)
 Definition fs_append_name (n : name) (x : N) (fs : list file) : list file :=
@@ -357,6 +361,14 @@ Definition xstep3 (c : cfg) (w : world) (x : xop) : world * bool * bool :=
       | Some (i, _) => (set_clock (set_files w (fs_remove_ino i (files w))) t, true, false)
       | None => (set_clock w t, true, false)
       end
+  | XChmod pos m t =>
+      match nth_error (reading_files (files w)) (N.to_nat pos) with
+      | Some f => (set_clock (set_files w (fs_chmod (f_name f) m (files w))) t, true, false)
+      | None => (set_clock w t, true, false)
+      end
+  | XNewSink t =>
+      ({| files := files w; dirmode := dirmode w; fopen := None; bw := 0; lc := 0; clock := t; next_ino := next_ino w;
+          acked := acked w; pruned := pruned w; since_open := 0; sout := sout w; serr := serr w |}, true, false)
   | XUnformatted t => (set_clock w t, match path c with PDevNull => true | _ => false end, false)   (* /dev/null answers nil before it looks at the event *)
   | XAppend pos x t =>
       match nth_error (reading_files (files w)) (N.to_nat pos) with
@@ -365,4 +377,4 @@ Definition xstep3 (c : cfg) (w : world) (x : xop) : world * bool * bool :=
       end
   end.
 Definition xstep (c : cfg) (w : world) (x : xop) : world := fst (fst (xstep3 c w x)).
-Definition xop_clock (x : xop) : op := match x with XOp o => o | XRmDir t | XRmActive t | XAppend _ _ t | XUnformatted t => Pause t end.
+Definition xop_clock (x : xop) : op := match x with XOp o => o | XRmDir t | XRmActive t | XAppend _ _ t | XChmod _ _ t | XNewSink t | XUnformatted t => Pause t end.
